@@ -311,11 +311,11 @@ def rw_throw(s, R):
             k += 1
         if s[k] != ';':
             raise ExtractError('throw expression not followed by ;')
-        s = s[:a] + 'VERIF_THROW(EXC_' + m.group(1).split('::')[-1] + ')' + s[k:]
+        s = s[:a] + 'VERIF_THROW(EXC_' + m.group(1).split('::')[-1] + ')' + s[k + 1:]   # the ';' is consumed: the macro is a block
         R.hit('throw')
         pos = a + 5
     if re.search(r'\bthrow\s*;', s):
-        s = R.sub('rethrow', r'\bthrow\s*;', 'VERIF_RETHROW;', s)
+        s = R.sub('rethrow', r'\bthrow\s*;', 'VERIF_RETHROW', s)
     return s
 
 
@@ -535,7 +535,7 @@ class Unit:
 
     def __init__(self, file, name, cls=None, cname=None, sig=None, nth=0, bind=None, method=None,
                  selftype=None, pre=(), post=(), ret=None, params=None, extra_members=(), refs_keep=(),
-                 maythrow=False, scalar_types=(), static=False, drop_const_self=False, block=None, objs=None, retval=None):
+                 maythrow=False, scalar_types=(), static=False, drop_const_self=False, block=None, objs=None, retval=None, witness=()):
         self.file = file
         self.name = name
         self.cls = cls
@@ -556,6 +556,7 @@ class Unit:
         self.block = block
         self.objs = objs or {}
         self.retval = retval
+        self.witness = list(witness)   # [(expr of type char*, length expr, K)]: first K bytes copied to a ghost array so traces show them
 
 
 def apply_mustfire(s, rules, R, what):
